@@ -149,6 +149,26 @@ theorem assignable_iff_equal (a b : Ty) (ha : anyFree a = true) (hb : anyFree b 
 example : assignable (.nominal false 1 2 [.prim .int]) (.nominal false 1 2 [.prim .bool]) = false := by
   decide
 
+/-- **Class identity in assignability.** Two nominal types are assignable only if they name the
+same toplevel of the same *module* with the same class-statics flag (and have assignable type
+arguments): identity is (module, name, statics), never the name alone. -/
+theorem assign_nominal_identity (s1 s2 : Bool) (m1 m2 i1 i2 : Nat) (as bs : List Ty)
+    (h : assignable (.nominal s1 m1 i1 as) (.nominal s2 m2 i2 bs) = true) :
+    m1 = m2 ∧ i1 = i2 ∧ s1 = s2 ∧ assignableL as bs = true := by
+  simp only [assignable, Bool.and_eq_true, beq_iff_eq] at h
+  exact ⟨h.1.1.1, h.1.1.2, h.1.2, h.2⟩
+
+/-- Counterexample to the name-only reading (the shape of seeded fault C06g): same class name and
+type arguments, different module — not assignable, in either direction, nor are they "the same
+type" for conformance. -/
+theorem assign_nominal_name_only_counterexample :
+    assignable (.nominal false 1 5 [.prim .int]) (.nominal false 2 5 [.prim .int]) = false ∧
+    assignable (.nominal false 2 5 [.prim .int]) (.nominal false 1 5 [.prim .int]) = false ∧
+    (meet (.nominal false 1 5 []) (.nominal false 2 5 [])).isSome = false ∧
+    sameType (.nominal false 1 5 []) (.nominal false 2 5 []) = false := by
+  refine ⟨by decide, by decide, ?_, by decide⟩
+  rw [meet_isSome_eq]; decide
+
 /-- The *only* way a type fault slips through an assignability check: an `any` on one side. -/
 theorem fault_slips_only_through_any (a b : Ty) (h : assignable a b = true) (hne : a ≠ b) :
     anyFree a = false ∨ anyFree b = false := by
